@@ -158,6 +158,42 @@ let dispatch_line line =
            (match r with Ok m -> fmt_msgs m | Panic s -> "PANIC:" ^ string_of_int (int_of_n s)))
        (run_dispatch c (parse_cdps body)))
 
+
+(* ------------------------------------------------------------------ prep (C12) *)
+let prep_line line =
+  let p = if String.trim line = "-" then [] else bytes_of_hex (String.trim line) in
+  match preprocess p with
+  | Prep_err _ -> "err"
+  | Prep_ok (slot, chunks) ->
+      if chunks = [] then "ok 0 -"
+      else Printf.sprintf "ok %d %s" (int_of_nat slot)
+             (String.concat "," (List.map (fun c -> hex_of_bytes (take (nat_of_int 10) c)) chunks))
+
+(* ------------------------------------------------------------------ rdhspec (C10): the documented rules *)
+(* same line format as `link`; per RDH: "<sane><running_violation>" from Spec/RdhRules.v *)
+let rdhspec_line line =
+  let head, body = split_head line in
+  let toks = split_ws head in
+  let its = (List.nth toks 1) <> "none" in
+  let custom = List.nth toks 3 in
+  let cv = if custom = "-" then None else json_int custom "rdh_version" in
+  let rdhs =
+    List.map (fun tok -> match String.split_on_char ':' tok with
+                         | _ :: rdh :: _ -> bytes_of_hex rdh
+                         | _ -> failwith "cdp") (split_ws body) in
+  let first = match cv, rdhs with
+    | Some v, _ -> v
+    | None, b :: _ -> h_header_id b
+    | None, [] -> N0 in
+  let buf = Buffer.create 64 in
+  let hist = ref [] in
+  List.iter (fun b ->
+      Buffer.add_string buf (b2s (rdh_sane first its b));
+      Buffer.add_string buf (b2s (running_violation (List.rev !hist) b));
+      Buffer.add_char buf ' ';
+      hist := b :: !hist) rdhs;
+  String.trim (Buffer.contents buf)
+
 let () =
   let stream = Sys.argv.(1) in
   let handler =
@@ -166,6 +202,8 @@ let () =
     | "fsm" -> (fun l -> fsm_case (split_ws l))
     | "link" -> link_line
     | "dispatch" -> dispatch_line
+    | "prep" -> prep_line
+    | "rdhspec" -> rdhspec_line
     | _ -> prerr_endline ("unknown stream " ^ stream); exit 2
   in
   let buf = Buffer.create (1 lsl 20) in
